@@ -292,8 +292,47 @@ def rule_r4(chk, facts, P):
         raise AnalysisBroken('only %d PushLocHandle(-1) sites found' % n_)
 
 
+def rule_r5(chk, facts, P):
+    chk.rule('C13-R5', 'asmpars.c/asmallg.c: a loop that walks the chain of open sections (innermost first) or a '
+             'FORWARD/PUBLIC list and compares names stops at the first match: the edge on which the comparison '
+             'reports equality leaves the loop', min_instances=2)
+    n_ = 0
+    for un in ('asmpars.c', 'asmallg.c'):
+        u = facts.unit(un)
+        for f in u.funcs.values():
+            if f.file != un:
+                continue
+            for (h, s0) in f.loops():
+                body = f.loop_body(h, s0)
+                # the loop must advance through ->Next
+                walks = any(is_assign(m) and strip(m[3])[0] == 'm' and
+                            strip(m[3])[2] in ('tag_TSaveSection.Next', 'tag_TForwardSymbol.Next')
+                            for bb in body for l2, ex in f.blocks[bb]['elems'] for m in walk_own(ex) if is_assign(m))
+                if not walks:
+                    continue
+                for s_, d_, l in f.edges():
+                    if s_ not in body or l is None or l[0] not in ('T', 'F'):
+                        continue
+                    match = any(a[0] == 'z' and isinstance(a[1], tuple) and a[1][0] == 'call' and
+                                a[1][1][1] in ('strcmp', 'as_strcasecmp', 'strcasecmp') for a in atoms(l[1], l[0] == 'T'))
+                    if not match:
+                        continue
+                    n_ += 1
+                    # does the search continue after the match?
+                    cont = f.reach_forward([d_], lambda a_, b_, l2: b_ in body or a_ in body, block_stop=lambda x: x not in body)
+                    again = h in cont and d_ in body
+                    ln = f.blocks[s_]['term'][1] if f.blocks[s_].get('term') else f.line
+                    chk.ob('C13-R5', '%s:%s:first-match@%d' % (un, f.name, len([1 for x in range(1)])), not again, f.loc(ln),
+                           'the loop is left at the first match' if not again else
+                           '%s keeps walking the chain after a name matched and a later (outer) entry overrides the first '
+                           '(innermost) one' % f.name)
+    if n_ < 2:
+        raise AnalysisBroken('only %d name-search loops found' % n_)
+
+
 def run(chk, facts, info):
     P = facts.program('asl')
+    rule_r5(chk, facts, P)
     rule_r1(chk, facts, P)
     rule_r2(chk, facts, P)
     rule_r3(chk, facts, P)
